@@ -380,6 +380,41 @@ def run_model(prog) -> ModelReport:
         _observers(rep, evaluate, dl, els, DL)
         # construction, pickling, bulk insert without check, replace on id
         _construction(rep, it, DL, methods, evaluate, els)
+    # sequences: a state reached by one operation of the implementation itself (the id index then holds its keys in the
+    # order the implementation left them, not in list order), and every operation of the scope from there
+    firsts = [("insert", lambda e, p, q: [0, p], "insert(0, p)"), ("insert", lambda e, p, q: [1, p], "insert(1, p)"), ("__setitem__", lambda e, p, q: [0, p], "[0] = p"), ("__setitem__", lambda e, p, q: [1, p], "[1] = p"),
+              ("pop", lambda e, p, q: [0], "pop(0)"), ("__delitem__", lambda e, p, q: [1], "del [1]"), ("remove", lambda e, p, q: [e[1]], "remove(b)"), ("reverse", lambda e, p, q: [], "reverse()"),
+              ("__isub__", lambda e, p, q: [[e[0]]], "-= [a]"), ("__setitem__", lambda e, p, q: [slice(0, 2), [p, q]], "[0:2] = [p, q]"), ("__delitem__", lambda e, p, q: [slice(0, 2)], "del [0:2]"),
+              ("extend", lambda e, p, q: [[p, q]], "extend([p, q])"), ("sort", lambda e, p, q: [], "sort()")]
+    for op1, mk, show1 in firsts:
+        if op1 not in methods:
+            continue
+        dl, els = _fresh_state(DL, 3, (2, 0, 1) if op1 == "sort" else None)
+        p_, q_ = El("p"), El("q")
+        got = evaluate(dl, op1, mk(els, p_, q_))
+        if got[0] != "value" or coherent(dl):
+            continue  # judged among the single operations above
+        els1 = contents(dl)
+        index1 = list(list.__getattribute__(dl, "__dict__")["_dict"].items())
+        rep.states += 1
+        new, new2 = El("n"), El("m")
+        dup = El(els1[0].id, "'") if els1 else None
+        for case in reference_cases(els1, new, new2, dup):
+            if case.op not in methods:
+                continue
+            list.clear(dl)
+            list.extend(dl, els1)
+            list.__getattribute__(dl, "__dict__").clear()
+            list.__getattribute__(dl, "__dict__")["_dict"] = dict(index1)
+            case.args = [list(a) if isinstance(a, list) else a for a in case.args]
+            got = evaluate(dl, case.op, case.args)
+            rep.cases += 1
+            _judge(rep, case, got, case.expect(els1), dl, els1, DL, f"{case.show} on {els1!r} (reached by {show1} on {els!r})")
+        list.clear(dl)
+        list.extend(dl, els1)
+        list.__getattribute__(dl, "__dict__").clear()
+        list.__getattribute__(dl, "__dict__")["_dict"] = dict(index1)
+        _observers(rep, evaluate, dl, els1, DL)
     # an identifier is any string, the empty one included: an element whose identifier is falsy is found like any other
     els = [El(""), El("a")]
     dl = DL.__new__(DL)
